@@ -91,7 +91,7 @@ fn domain(p: P) -> Vec<V> {
         P::F64Pow => f64_set(512),
         P::Bool => vec![V::Bool(false), V::Bool(true)],
         P::Char | P::BufChar => {
-            ['\0', 'a', '\n', 'é', '漢', '𝄞', '\u{d7ff}', '\u{e000}', '\u{10ffff}'].into_iter().map(V::Char).collect()
+            ['\0', 'a', '\n', 'é', '漢', '𝄞', 'ǅ', 'İ', '\u{d7ff}', '\u{e000}', '\u{10ffff}'].into_iter().map(V::Char).collect()
         }
         P::Asn => wide_ints(0, u32::MAX as i128).into_iter().map(|v| V::Asn(v.u() as u32)).collect(),
         // operands of Prefix.new / `ip / len`: all-zeros and all-ones of each
@@ -107,6 +107,7 @@ fn domain(p: P) -> Vec<V> {
             let c = |s: &str| V::List(s.chars().map(V::Char).collect());
             vec![c(""), c("a"), c("é"), c("aé漢𝄞"), c("a\n漢𝄞\0"), V::List(vec![V::Char('\u{10ffff}')])]
         }
+        P::CtxCase | P::CtxTrim | P::CtxLen => ints(0..=6),
         P::UnusedStr => vec![V::str("")],
         P::UnusedChar => vec![V::Char('a')],
         P::ListU64 => u64_lists(),
@@ -200,7 +201,7 @@ pub fn run(i: usize, cx: &mut Cx) {
     let mut n = 0u64;
     let mut sampled = false;
     for sub in s0..s1 {
-        let args = plan::args_at(doms, sub);
+        let args = op.real_args(plan::args_at(doms, sub));
         if !cx.case(sub) {
             continue;
         }
@@ -233,7 +234,7 @@ pub fn describe(i: usize, _cfg: &Cfg, sub: u64) -> Value {
     if sub == SUB_SETUP {
         return json!({"kind": "setup", "builtin": op.name, "form": op.form, "script": op.script});
     }
-    let args = plan::args_at(&t.doms[opi], sub);
+    let args = op.real_args(plan::args_at(&t.doms[opi], sub));
     case(op, &args)
 }
 
